@@ -96,6 +96,13 @@ CHECKS["C03"] = dict(
    note="Trusted: ref/refv. Unspecified (counted in the evidence): cardinality/precedence of shortcut matches, presence of non-optional shortcut entries, rule-less key types, integer under additionalProperties float.",
    design="4/C03")
 
+CHECKS["C15"] = dict(
+   category="exploration", engine="B small-scope enumeration over the merged schema corpus (C01/C03/C04/C09 generators + hostile keys)",
+   technique="exhaustive enumeration of all Check-accepted generated schemas; well-formedness by reference PDA + encoding/json, self-validation, compact-equality",
+   text="Every Check-accepted case of the merged generators (all rule-free schemas <= 3/4 nodes in both configs, type-reference/or/allOf/additionalProperties/key-shortcut families, 34 rule slots x 13 contexts, all fully inhabited type graphs over 1-2 types and ring/diamond families with optional/array/terminating edges, hostile keys and strings): Example() must succeed, be well-formed JSON, be accepted by its own schema, and equal the compact example for plain-JSON schemas.",
+   note="Trusted: reference PDA, encoding/json. Known finding (class): recursion cut-off yields self-rejected or empty examples on cyclic type graphs.",
+   design="4/C15")
+
 NOT_YET = {
 }
 
